@@ -5,8 +5,9 @@ Oracle: table model (longest match at each offset; everything else copied; map =
 of <= 3 (quick) / <= 4 (thorough) atoms, plus random longer strings and pure prose.
 """
 import itertools
+import os
 
-from .. import core, tex
+from .. import core, env, tex
 
 TAB = {'---': '—', '--': '–', '``': '“', "''": '”', '~': '\xa0',
        '\\,': '\u202f', '\\%': '%', '\\&': '&', '\\$': '$', '\\#': '#', '\\_': '_',
@@ -73,7 +74,8 @@ class C06(core.Check):
     rule = ('exhaustive: every string of <= L atoms over the 20 atoms %s (L=3 quick, 4 thorough), each run under '
             'the default options and one rotating second option set; random: strings of 5-200 atoms over a wider '
             'alphabet; prose: strings without any LaTeX-active character (identity oracle, also multi-language '
-            'mode). Strings with a special sequence on an otherwise blank line are excluded (statement) and '
+            'mode); command line: `python -m yalafi --ienc <encoding> --nums f` on files in UTF-8, Latin-1, cp1252, '
+            'ISO 8859-15: standard output = UTF-8 bytes of the model text, numbers = model map. Strings with a special sequence on an otherwise blank line are excluded (statement) and '
             'counted. non-trivial = not excluded and (contains a special sequence or is prose of >= 3 chars); '
             'distinct = distinct (string, options)' % ' '.join(repr(a) for a in ATOMS))
     level_text = ('Exploration with an exhaustively enumerated sub-space: every string of <= 3 (quick) / <= 4 (thorough) atoms '
@@ -124,8 +126,54 @@ class C06(core.Check):
                 for _ in range(n):
                     parts.append(rnd.choice(alpha) if rnd.random() < .75 else rnd.choice(PROSE_WS))
                 yield dict(fam='prose', s=''.join(parts), opts=opts, ml=rnd.random() < .25)
+        # command line: input encodings (output is UTF-8 whatever the input encoding is)
+        for i in range((160 if tier == 'quick' else 2000) // nshards):
+            enc = rnd.choice(['default', 'utf-8', 'latin-1', 'cp1252', 'latin-1', 'cp1252', 'iso8859-15'])
+            alpha = ['a', 'b', 'W', ' ', ' ', '\n', '.', ',', '~', '--', '---', '``', "''", '\\,', '\\%', '\\&', 'ä', 'ß', 'é', 'Ü', 'x']
+            s = ''.join(rnd.choice(alpha) for _ in range(rnd.randint(1, 30)))
+            yield dict(fam='cli', s=s, enc=enc)
+
+    def judge_cli(self, case):
+        """the command-line filter: the file is read in the given input encoding, the plain text is written to
+        standard output in UTF-8 (README), the position numbers to the --nums file"""
+        import subprocess
+        s, enc = case['s'], case['enc']
+        cnt = {'fam_cli': 1, 'cli_enc_' + enc: 1}
+        if excluded(s):
+            cnt['excluded_special_on_blank_line'] = 1
+            return dict(ok=True, nt=False, key=None, cnt=cnt, obs=None)
+        mt, mp = model(s)
+        fn = os.path.join(self.tmp, 'c%d.tex' % os.getpid())
+        nums = fn + '.nums'
+        with open(fn, 'wb') as f:
+            f.write(s.encode('utf-8' if enc == 'default' else enc))
+        cmd = [env.PY, '-m', 'yalafi', '--pack', '', '--nums', nums] + (['--ienc', enc] if enc != 'default' else []) + [fn]
+        pr = subprocess.run(cmd, capture_output=True, timeout=120, cwd=self.tmp, env=env.child_env())
+        detail = dict(src=s, enc=enc, stderr=pr.stderr.decode('utf-8', 'replace')[-600:], stdout=repr(pr.stdout[:200]),
+                      model_plain=mt)
+        if pr.returncode != 0:
+            return dict(ok=False, nt=True, key='cli:exit%d' % pr.returncode, cnt=cnt, obs=None, detail=detail)
+        if pr.stdout != mt.encode('utf-8'):
+            return dict(ok=False, nt=True, key='cli:output-bytes', cnt=cnt, obs=None, detail=detail)
+        got = [int(x.rstrip('+')) for x in open(nums).read().split()]
+        if got != mp:
+            detail.update(nums=got, model_map=mp)
+            return dict(ok=False, nt=True, key='cli:numbers', cnt=cnt, obs=None, detail=detail)
+        if any(ord(ch) > 127 for ch in mt):
+            cnt['cli_non_ascii_output'] = 1
+        return dict(ok=True, nt=len(s) >= 3, key=None, cnt=cnt, obs=dict(src=tex.short(s, 60), enc=enc))
+
+    def setup(self, tier):
+        import tempfile
+        self.tmp = tempfile.mkdtemp(prefix='yvm_c06_')
+
+    def teardown(self):
+        import shutil
+        shutil.rmtree(self.tmp, ignore_errors=True)
 
     def judge(self, case):
+        if case['fam'] == 'cli':
+            return self.judge_cli(case)
         s = case['s']
         fam = case['fam']
         cnt = {'fam_' + fam: 1}
@@ -171,7 +219,8 @@ class C06(core.Check):
     def quotas(self, tier):
         L = self.exh_len(tier)
         total = sum(len(ATOMS) ** n for n in range(L + 1))
-        return {'fam_exh': total, 'fam_exh2': total, 'with_special': 1000, 'prose_identity_obligations': 500}
+        return {'fam_exh': total, 'fam_exh2': total, 'with_special': 1000, 'prose_identity_obligations': 500, 'fam_cli': 100,
+                'cli_enc_latin-1': 20, 'cli_enc_cp1252': 20, 'cli_non_ascii_output': 50}
 
     def extra_evidence(self, counters, tier):
         L = self.exh_len(tier)
